@@ -48,6 +48,9 @@ enum ro_verdict {
   RO_V_AFTER_DEREG,       /* new notification after the deregistering event was processed */
   RO_V_RETX_AFTER_DEREG,  /* retransmission of an earlier notification after deregistration was processed */
   RO_V_NOT_INCREASING,    /* Observe value not strictly newer than every earlier one for this entry */
+  RO_V_EQUALS_REG_RESPONSE, /* Observe value equal to (not newer than) the one in a registration response that came
+                             * after the previous notification: the change was signalled before that (re-)registration
+                             * request was answered, the notification left afterwards with the same number */
   RO_V_REG_RESPONSE_OLDER,/* Observe value in a registration response older than an earlier notification */
   RO_V_NO_CON,            /* con_every-th consecutive non-confirmable notification */
   RO_V_NON_IN_CON_MODE,   /* con_every == 1 and a NON notification */
@@ -83,6 +86,7 @@ struct ro_reg {
   struct ro_tok toks[RO_MAXTOK];
   int have_obs;
   uint32_t last_obs;  /* newest Observe value ever emitted for this entry (any generation) */
+  int obs_from_reg;   /* last_obs was last raised by a registration response, no notification has reached it yet */
   int non_run;        /* consecutive NON notifications since the last CON notification / (re)registration */
   int fails;          /* confirmable notifications that timed out since the last acknowledgement */
   int nnotes;
